@@ -218,6 +218,11 @@ func (s *SW) PostFile(owner int, f *gen.File, maxProofs, expires, declaredSize i
 	if declaredSize >= 0 {
 		size = declaredSize
 	}
+	return s.PostFileSized(owner, f, maxProofs, expires, size)
+}
+
+// PostFileSized posts f declaring exactly `size` bytes (also zero or negative ones).
+func (s *SW) PostFileSized(owner int, f *gen.File, maxProofs, expires, size int64) (*WFile, chain.TxResult) {
 	netWindow := s.c.App.StorageKeeper.GetParams(s.c.Ctx()).ProofWindow
 	r := s.deliver(owner, &storagetypes.MsgPostFile{Creator: s.acc(owner).Bech, Merkle: f.Root(), FileSize: size,
 		ProofInterval: s.ReqProofInterval, ProofType: 0, MaxProofs: maxProofs, Expires: expires, Note: "{}"})
